@@ -113,26 +113,40 @@ def canon(vals):
     return tuple(sorted((k, repr(v)) for k, v in vals.items()))
 
 
-def run_case(seed, dynamic=False):
+def gen_space_retry(rng):
+    """a Choice whose values are not in ascending order declared up front, one or two small entries discovered inside the trials:
+    a retried trial that ends after the discovery is asked for its successor a second time, when its old successor is already
+    in the list - the only situation in which _compare sees two different non-default values of one hyperparameter"""
+    vs = rng.sample(["relu", "tanh", "elu", "gelu"], rng.randint(3, 4))
+    spec = [["h0", "choice", (vs, rng.choice(vs + [None])), None, None]]
+    for i in range(1, rng.randint(2, 3)):
+        kind = rng.choice(["int", "bool", "choice"])
+        args = (0, rng.randint(1, 2)) if kind == "int" else (rng.random() < 0.5,) if kind == "bool" else (rng.sample(["p", "q", "r"], 2), None)
+        spec.append(["h%d" % i, kind, args, None if rng.random() < 0.6 else 0, None])
+    return spec
+
+
+def run_case(seed, dynamic=False, family=None):
     warnings.filterwarnings("ignore")
     import keras_tuner as kt
     from keras_tuner.engine import hyperparameters as hpm
     from keras_tuner.tuners import gridsearch
     rng = random.Random(seed)
-    spec = gen_space(rng)
+    spec = gen_space(rng) if family != "retry" else gen_space_retry(rng)
     full = hpm.HyperParameters(); objs = []
     declare(full, spec, objs, rng)
     upfront = None
     if dynamic:
-        k = rng.randint(0, max(0, len(spec) - 1))
+        k = rng.randint(0, max(0, len(spec) - 1)) if family != "retry" else 1
         upfront = set(range(k))
     hps = hpm.HyperParameters()
     if upfront is None:
         declare(hps, spec, [], rng)
     else:
         declare(hps, spec, [None] * len(spec), rng, only=upfront)
-    cfg = dict(max_retries=rng.choice([0, 0, 1]), max_consec=50)
-    W = rng.randint(1, 3)
+    cfg = dict(max_retries=rng.choice([0, 0, 1]) if family != "retry" else rng.choice([1, 2, 3]), max_consec=50)
+    W = rng.randint(1, 3) if family != "retry" else rng.randint(2, 4)
+    p_invalid = 0.15 if family != "retry" else 0.35
     as_copy = rng.random() < 0.35      # end_trial is given a reconstructed copy of the trial, as the chief/worker layer does
     d = tempfile.mkdtemp(prefix="ktv09_")
 
@@ -155,10 +169,11 @@ def run_case(seed, dynamic=False):
             w = rng.randrange(W); tn = "w%d" % w
             if tn in held and rng.random() < 0.7:
                 t = held.pop(tn); r = rng.random()
-                if dynamic:
-                    declare(t.hyperparameters, spec, [None] * len(spec), rng)       # the build function declares the whole tree
+                if dynamic and not (family == "retry" and r >= 0.7 and rng.random() < 0.6):
+                    # the build function declares the whole tree (in the retry family a crashing run may die before it gets there)
+                    declare(t.hyperparameters, spec, [None] * len(spec), rng)
                 if r < 0.7: o.update_trial(t.trial_id, {"score": float(rng.randint(-3, 3))}); t.status = "COMPLETED"; oc = "ECompleted"
-                elif r < 0.85: t.status = "INVALID"; oc = "EInvalid"
+                elif r < 0.7 + p_invalid: t.status = "INVALID"; oc = "EInvalid"
                 else: t.status = "FAILED"; oc = "EFailed"
                 try:
                     if as_copy:
@@ -204,7 +219,7 @@ def run_case(seed, dynamic=False):
                 viol = ("first-is-defaults", "first trial %r is not the all-defaults combination %r" % (dict(got[0]), dict(want[0])))
         elif not exc:
             viol = ("no-stop", "the grid search did not reach STOPPED within 600 operations (%d trials)" % len(o.trials))
-        return dict(cfg, sp=sp), ops, obs, viol, dict(seed=seed, dynamic=dynamic, W=W, space=[(h.name, type(h).__name__) for h in full.space], ntrials=len(o.trials))
+        return dict(cfg, sp=sp), ops, obs, viol, dict(seed=seed, dynamic=dynamic, family=family, W=W, space=[(h.name, type(h).__name__) for h in full.space], ntrials=len(o.trials))
     finally:
         shutil.rmtree(d, ignore_errors=True)
 
@@ -248,13 +263,14 @@ FOOTER = "\n].\nEval vm_compute in (map (fun c => let '(cf, sp, ops, ob) := c in
 
 
 def run(ctx):
-    n = ctx.n(150, 2500); ndyn = ctx.n(60, 800)
+    n = ctx.n(150, 2500); ndyn = ctx.n(120, 1600)
     terms = []; infos = []; failures = []
     stats = dict(static=0, dynamic=0, ops=0, trials=0, reloads=0, workers={}, max_combos=0)
     distinct = 0; seen = set()
     for i in range(n + ndyn):
         seed = ctx.rng.randint(0, 2 ** 40); dyn = i >= n
-        cfg, ops, obs, viol, info = run_case(seed, dynamic=dyn)
+        fam = "retry" if dyn and (i - n) % 2 == 1 else None
+        cfg, ops, obs, viol, info = run_case(seed, dynamic=dyn, family=fam)
         stats["dynamic" if dyn else "static"] += 1; stats["ops"] += len(ops); stats["trials"] += info["ntrials"]
         stats["reloads"] += sum(1 for o in ops if o[0] == "reload"); stats["workers"][info["W"]] = stats["workers"].get(info["W"], 0) + 1
         stats["max_combos"] = max(stats["max_combos"], info["ntrials"])
@@ -281,12 +297,12 @@ def run(ctx):
                 rule="spaces of 1-4 entries (Int, stepped Int, stepped log Int, Choice with default in or out of first place, Boolean, Fixed) with conditions on earlier "
                      "entries nested to depth 3; 1-3 workers with random finishing orders, COMPLETED / INVALID (retried) / FAILED outcomes, save+reload at quiet points; run until "
                      "every worker is told STOPPED; the static cases are compared step by step with the model, the dynamic ones (part of the tree declared only inside the "
-                     "trials) are checked on the implementation; non-trivial = distinct (space, schedule) with >= 3 trials",
+                     "trials; half of them with a non-ascending Choice up front, 2-4 workers, retries and runs that crash before declaring anything) are checked on the implementation; non-trivial = distinct (space, schedule) with >= 3 trials",
                 samples=infos[:2], failures=failures, stats=stats)
 
 
 def replay(ctx, doc):
     info = doc["replay"]["case"]
-    cfg, ops, obs, viol, info2 = run_case(info["seed"], dynamic=info["dynamic"])
+    cfg, ops, obs, viol, info2 = run_case(info["seed"], dynamic=info["dynamic"], family=info.get("family"))
     fs = [Failure("violation", "C09/%s%s" % (viol[0], "-dynamic" if info["dynamic"] else ""), viol[1], {"case": info2})] if viol else []
     return dict(evaluations=1, distinct_nontrivial=1, failures=fs, samples=[info2], rule="replay from the case seed")
